@@ -262,4 +262,96 @@ theorem stringExotic_delete_aux {V} (base : Obj V) (chars : List V) (hb : NoChar
       · intro n hn
         exact lookup_erase_same_none _ _ _ (hb n hn)
 
+/-! ### [[OwnPropertyKeys]] of a String exotic object (10.4.3.3) -/
+
+def seqFrom : Nat → Nat → List Nat
+  | _, 0 => []
+  | s, n + 1 => s :: seqFrom (s + 1) n
+
+/-- 10.4.3.3: the string indices ascending, then the integer-index keys, string keys and symbol keys of the ordinary part
+in OrdinaryOwnPropertyKeys order -/
+def strOwnKeys {V} (base : Obj V) (chars : List V) : List Key :=
+  (seqFrom 0 chars.length).map Key.idx ++ ownKeys base.props
+
+theorem keys_strIdxProps {V} (chars : List V) (s : Nat) :
+    (strIdxProps chars s).map (·.1) = (seqFrom s chars.length).map Key.idx := by
+  induction chars generalizing s with
+  | nil => rfl
+  | cons c cs ih => simp [strIdxProps, seqFrom, ih]
+
+theorem insertNat_lt_head (x : Nat) (l : List Nat) (h : ∀ y ∈ l, x < y) : insertNat x l = x :: l := by
+  cases l with
+  | nil => rfl
+  | cons a as =>
+    have := h a (List.mem_cons_self)
+    simp [insertNat, Nat.not_lt.mpr (Nat.le_of_lt this)]
+
+theorem mem_seqFrom (s n y : Nat) : y ∈ seqFrom s n ↔ s ≤ y ∧ y < s + n := by
+  induction n generalizing s with
+  | zero => simp [seqFrom]
+  | succ n ih =>
+    simp only [seqFrom, List.mem_cons, ih]
+    omega
+
+theorem foldr_insert_seq (acc : List Nat) : ∀ (n s : Nat), (∀ y ∈ acc, s + n ≤ y) →
+    (seqFrom s n).foldr insertNat acc = seqFrom s n ++ acc := by
+  intro n
+  induction n with
+  | zero => intro s _; rfl
+  | succ n ih =>
+    intro s h
+    simp only [seqFrom, List.foldr_cons]
+    rw [ih (s + 1) (fun y hy => by have := h y hy; omega)]
+    rw [insertNat_lt_head]
+    · rfl
+    · intro y hy
+      rcases List.mem_append.mp hy with h1 | h1
+      · have := (mem_seqFrom (s + 1) n y).mp h1; omega
+      · have := h y h1; omega
+
+theorem sortNat_append (a b : List Nat) : sortNat (a ++ b) = a.foldr insertNat (sortNat b) := by
+  simp [sortNat, List.foldr_append]
+
+/-- [[OwnPropertyKeys]]: exotic = OrdinaryOwnPropertyKeys of the materialised object -/
+theorem stringExotic_ownKeys_aux {V} (base : Obj V) (chars : List V) (hb : NoCharIdx base chars) :
+    strOwnKeys base chars = ownKeys (strMat base chars).props := by
+  have hk : (strMat base chars).props.map (·.1) = (seqFrom 0 chars.length).map Key.idx ++ base.props.map (·.1) := by
+    simp [strMat, keys_strIdxProps]
+  simp only [strOwnKeys, ownKeys, hk, List.filter_append, List.map_append]
+  have hI : ((seqFrom 0 chars.length).map Key.idx).filter Key.isIdx = (seqFrom 0 chars.length).map Key.idx := by
+    apply List.filter_eq_self.mpr
+    intro k hk'
+    obtain ⟨n, _, rfl⟩ := List.mem_map.mp hk'
+    rfl
+  have hS : ((seqFrom 0 chars.length).map Key.idx).filter (fun k => !k.isIdx && !k.isSym) = [] := by
+    apply List.filter_eq_nil_iff.mpr
+    intro k hk'
+    obtain ⟨n, _, rfl⟩ := List.mem_map.mp hk'
+    simp [Key.isIdx]
+  have hY : ((seqFrom 0 chars.length).map Key.idx).filter Key.isSym = [] := by
+    apply List.filter_eq_nil_iff.mpr
+    intro k hk'
+    obtain ⟨n, _, rfl⟩ := List.mem_map.mp hk'
+    simp [Key.isSym]
+  have hV : ((seqFrom 0 chars.length).map Key.idx).map Key.idxVal = seqFrom 0 chars.length := by
+    simp [List.map_map, Function.comp_def, Key.idxVal]
+  rw [hI, hS, hY, hV, sortNat_append]
+  have hge : ∀ y ∈ sortNat ((base.props.map (·.1)).filter Key.isIdx |>.map Key.idxVal), 0 + chars.length ≤ y := by
+    intro y hy
+    have hy' := (List.Perm.mem_iff (perm_sortNat _)).mp hy
+    obtain ⟨k, hk1, hk2⟩ := List.mem_map.mp hy'
+    have hk3 := List.mem_filter.mp hk1
+    cases k with
+    | idx n =>
+      simp only [Key.idxVal] at hk2; subst hk2
+      apply Nat.le_of_not_lt
+      intro hlt
+      have hnone := hb n (by omega)
+      have hsome := (mem_keys_iff base.props (Key.idx n)).mp hk3.1
+      rw [hnone] at hsome; cases hsome
+    | str s => simp [Key.isIdx] at hk3
+    | sym s => simp [Key.isIdx] at hk3
+  rw [foldr_insert_seq _ _ 0 hge]
+  simp [List.map_append, List.append_assoc]
+
 end GojaModel.C04
